@@ -20,6 +20,7 @@ mod c18;
 mod guard;
 mod c10;
 mod c16;
+mod c17;
 
 use engine::{run_prop, Opts};
 
@@ -48,6 +49,7 @@ fn main() {
         "C14" => run_prop(c14::C14, &opts),
         "C15" => run_prop(c15::C15, &opts),
         "C16" => run_prop(c16::C16, &opts),
+        "C17" => run_prop(c17::C17, &opts),
         "C18" => c18::run(&opts),
         o => {
             eprintln!("unknown property {o}");
